@@ -1,6 +1,7 @@
 from typing import TypeVar, Generic, Optional, Type, Union, Dict
 
 from .._core.handler import __USIM_STATE__
+from .._core.loop import Interrupt
 from ._resource_level import __specialise__, ResourceLevels
 from .tracked import Tracked
 
@@ -137,8 +138,11 @@ class BorrowedResources(BaseResources[T]):
         return self
 
     async def __aexit__(self, exc_type, exc_val, exc_tb):
-        if exc_type is GeneratorExit:
-            # we are killed forcefully and cannot perform async operations
+        if exc_type is GeneratorExit or (
+            exc_type is not None and issubclass(exc_type, Interrupt)
+        ):
+            # we are killed forcefully or interrupted and must not suspend again:
+            # another interrupt arriving meanwhile would replace this one
             self.__release_nowait__(self._debits)
         else:
             try:
